@@ -180,6 +180,13 @@ Definition hyp_validate (token : string) (domain : Z) (recipient hook metadata :
        | Some h => if hex_ok h then Ok tt else Err "hyperlane: hook metadata not hex"
        end.
 
+(* the max fee of a Hyperlane transfer: the Warp module builds an sdk.Coins out of it, which panics on a
+   non-zero coin with an invalid denom or a negative amount; the repaired HypAttributes.Validate refuses it *)
+Definition fee_coin_bad (fee_denom : string) (fee_amt : Z) : bool :=
+  negb (fee_amt =? 0) && negb (valid_denom fee_denom && (0 <? fee_amt)).
+Definition hyp_fee_validate (fee_denom : string) (fee_amt : Z) : res unit :=
+  if fee_coin_bad fee_denom fee_amt then Err "hyperlane: invalid max fee" else Ok tt.
+
 (* [allow_self]: whether the internal route accepts the orbiter account itself as recipient
    (true at the pinned commit, false in the repaired code) *)
 Definition internal_validate (allow_self : bool) (cfg : config) (e : env) (recipient : string) : res unit :=
@@ -214,11 +221,14 @@ Definition forward_ctrl_with (allow_self hyp_log_first : bool) (cfg : config) (e
         else
           _ <- lift (tattr_validate t) ;;
           _ <- lift (hyp_validate token domain recipient hook metadata) ;;
+          _ <- lift (if hyp_log_first then Ok tt else hyp_fee_validate fee_denom fee_amt) ;;
           _ <- mext (CHypToken token) "hyperlane: token query failed" ;;
           match cfg_hyp_token cfg token with
           | None => mfail "hyperlane: token not found"
           | Some origin =>
               if negb (String.eqb origin (t_ddenom t)) then mfail "hyperlane: invalid forwarding token"
+              else if hyp_log_first && fee_coin_bad fee_denom fee_amt
+              then mpanic "warp: sdk.NewCoins on an invalid max fee"
               else ext_moving (CHypTransfer (cfg_orbiter_bech cfg) token domain recipient (t_damt t) (opt_str hook)
                                             gas fee_denom fee_amt metadata)
                               [MSend orb (cfg_warp cfg) (t_ddenom t) (t_damt t)]
